@@ -20,7 +20,7 @@ func init() {
 
 func checkC15(w *World, tier string) *Report {
 	r := newReport("C15")
-	r.Explanation = "R15.1 (clone rule): opTload, opTstore (incl. the read-only test before the state write), memoryCopierGas, memoryGasCost, toWordSize, calcMemSize64(+WithUint), Memory.Resize/Set and the interpreter loop are SSA clones of go-ethereum v1.12.0; enable1153 embeds the reference with the renumbered opcode bytes; " +
+	r.Explanation = "R15.1 (clone rule): opTload, opTstore (incl. the read-only test before the state write), memoryCopierGas, memoryGasCost, toWordSize, calcMemSize64(+WithUint), Memory.Resize/Set and the interpreter loop are SSA clones of go-ethereum v1.12.0; enable1153 embeds the reference with the renumbered opcode bytes; R15.1r the vm/runtime entry points (which call StateDB.Prepare, where transient storage is emptied at a transaction boundary) are clones; " +
 		"R15.2 (table facts): TLOAD/TSTORE have constantGas = params.WarmStorageReadCostEIP2929, no dynamic gas, stacks (1,1)/(2,0); MCOPY has constantGas = GasFastestStep, dynamicGas = gasMcopy = memoryCopierGas(2), stacks (3,0), memorySize = memoryMcopy; the Cancun constructor is the Shanghai constructor plus enable1153 and enable5656; NewEVMInterpreter tests IsCancun first and selects that table; 0x5c-0x5e are written by no other function and the enablers are referenced from nowhere else, so the bytes are invalid before Cancun; " +
 		"R15.3 (operand agreement of siblings): opMcopy pops (dst, src, len) from positions 0,1,2 and passes them to Memory.Copy in that order; memoryMcopy sizes memory as calcMemSize64(max(Back(0), Back(1)), Back(2)); the gas function reads position 2; Memory.Copy is copy(store[dst:], store[src:src+len]) guarded by len != 0 (zero-length copies touch nothing, memory having not been expanded). " +
 		"memmove semantics of the builtin copy, the transient-storage journal of the StateDB and equality with an executable EIP-5656 model are not decided (no newer reference implementation on disk)."
@@ -29,6 +29,10 @@ func checkC15(w *World, tier string) *Report {
 		"(*Memory).Resize": true, "(*Memory).Set": true, "(*Memory).Len": true, "(*EVMInterpreter).Run": true, "newShanghaiInstructionSet": true, "validate": true, "NewEVMInterpreter": true}
 	s.cloneRule(r, "R15.1", pkVM, func(name string, pr *PairResult) bool { return want[name] })
 	r.need("R15.1", 12)
+	// the execution harness that starts a transaction (runtime.Execute/Create/Call) calls StateDB.Prepare, the only
+	// place where transient storage is emptied at a transaction boundary: it must be the reference's
+	s.cloneRule(r, "R15.1r", pkRuntime, nil)
+	r.need("R15.1r", 3)
 	addR152(w, r, "R15.2")
 	addTableRules(w, r, "R15.2t")
 	addR153(w, r, "R15.3")
